@@ -12,7 +12,7 @@ def obligations(tier):
         grid = [{"R": r, "P": p, "STRICT": 1, "CH": (r + p) % 2} for r in (3, 5, 6, 7) for p in (0, 1, 2)] + \
                [{"R": r, "P": p, "STRICT": 0, "CH": p} for r in (5, 7) for p in (0, 1)]
     steps = []
-    SYS = ["stat", "unlink", "open", "fstat", "lseek", "write", "close", "read", "time"]
+    SYS = ["stat", "unlink", "open", "fstat", "lseek", "write", "close", "read", "time", "utimes"]
     UNITS = STR + ["fmtqfn.c", "fmt_ulong.c", "fmt_str.c", "auto_split.c", "open_write.c"]
     for (name, mode, funcs, wit, claim) in (
         ("job_close", 1, ["qmail-send.c:job_close"],
@@ -26,10 +26,15 @@ def obligations(tier):
          "C03(6)/C15: restart puts the message on the queue of every existing channel file with due time = its mtime, on pqdone if none, on pqfail after a stat error"),
         ("cleanup_do", 6, ["qmail-send.c:cleanup_do"], ["stale_file_collected", "young_or_live_file_kept"],
          "C02: foop/N is requested for a mess file only if it is older than OSSIFIED and info/N and todo/N are both ENOENT"),
+        ("pqrun", 7, ["qmail-send.c:pqrun", "prioq.c"], ["all_due"],
+         "C15: pqrun (ALRM) sets the due time of every entry of both channel queues to now, losing none"),
+        ("pqfinish", 8, ["qmail-send.c:pqfinish", "prioq.c:prioq_min", "prioq.c:prioq_delmin"], ["schedule_saved"],
+         "C15: pqfinish writes every entry's due time to the mtime of its own channel file (exactly once each) and drains the queues"),
     ):
         chans = [0, 1] if mode in (1, 2) else [0]
+        extra_units = ["prioq.c"] if mode in (7, 8) else []
         steps.append(Obl(name, "steps.c",
-            progs=[Prog("qmail-send.c", nomain=True, cut=["injectbounce"])], repo=UNITS, lib=["arena_stralloc.c"],
+            progs=[Prog("qmail-send.c", nomain=True, cut=["injectbounce"])], repo=UNITS + extra_units, lib=["arena_stralloc.c"],
             defines={"ARENA_CAP": 64, "ARENA_SLOTS": 6, "MODE": mode}, sysrename=SYS,
             grid=[{"CH": c} for c in chans], unwind_default=44, timeout=600,
             functions=funcs + ["qmail-send.c:fnmake_*", "fmtqfn.c:fmtqfn"],
